@@ -9,14 +9,19 @@ open FormulaeModel
 /-- labelled row: one design-matrix row with the label of every column -/
 abbrev LRow := List (String × Entry)
 
-/-- interaction of two labelled rows: labels joined with `sep`, entries multiplied, first slowest -/
-def interL (sep : String) (a b : LRow) : LRow :=
-  a.flatMap (fun p => b.map (fun q => (p.1 ++ sep ++ q.1, Entry.mul p.2 q.2)))
+/-- interaction of two labelled rows: labels combined with `f`, entries multiplied, first slowest -/
+def interL (f : String → String → String) (a b : LRow) : LRow :=
+  a.flatMap (fun p => b.map (fun q => (f p.1 q.1, Entry.mul p.2 q.2)))
 
 def rowProd (rx ry : List Entry) : List Entry := rx.flatMap (fun a => ry.map (fun b => Entry.mul a b))
 
-def labelProd (sep : String) (lx ly : List String) : List String :=
-  lx.flatMap (fun a => ly.map (fun b => a ++ sep ++ b))
+def labelProd (f : String → String → String) (lx ly : List String) : List String :=
+  lx.flatMap (fun a => ly.map (fun b => f a b))
+
+/-- `a:b` -/
+def colon (a b : String) : String := a ++ ":" ++ b
+/-- `effect|group` for (group, effect) enumerated group-slowest -/
+def bar (g l : String) : String := l ++ "|" ++ g
 
 theorem zip_map_map {α β γ δ : Type} (f : α → γ) (g : β → δ) (xs : List α) (ys : List β) :
     List.zip (xs.map f) (ys.map g) = (List.zip xs ys).map (fun p => (f p.1, g p.2)) := by
@@ -25,9 +30,9 @@ theorem zip_map_map {α β γ δ : Type} (f : α → γ) (g : β → δ) (xs : L
   | cons x xs ih => cases ys <;> simp [ih]
 
 /-- The label product and the data product of one row enumerate the pairs in the same order. -/
-theorem zip_labelProd_rowProd (sep : String) (lx ly : List String) (rx ry : List Entry)
+theorem zip_labelProd_rowProd (f : String → String → String) (lx ly : List String) (rx ry : List Entry)
     (hx : lx.length = rx.length) (hy : ly.length = ry.length) :
-    List.zip (labelProd sep lx ly) (rowProd rx ry) = interL sep (List.zip lx rx) (List.zip ly ry) := by
+    List.zip (labelProd f lx ly) (rowProd rx ry) = interL f (List.zip lx rx) (List.zip ly ry) := by
   induction lx generalizing rx with
   | nil => cases rx <;> simp_all [labelProd, rowProd, interL]
   | cons a lx ih =>
@@ -41,8 +46,8 @@ theorem zip_labelProd_rowProd (sep : String) (lx ly : List String) (rx ry : List
       congr 1
       rw [zip_map_map]
 
-theorem length_labelProd (sep : String) (lx ly : List String) :
-    (labelProd sep lx ly).length = lx.length * ly.length := by
+theorem length_labelProd (f : String → String → String) (lx ly : List String) :
+    (labelProd f lx ly).length = lx.length * ly.length := by
   induction lx with
   | nil => simp [labelProd]
   | cons a lx ih =>
@@ -61,29 +66,29 @@ end FormulaeModel.Design
 namespace FormulaeModel.Design
 open FormulaeModel
 
-theorem interactionLabels_eq (x y : List String) : interactionLabels x y = labelProd ":" x y := rfl
+theorem interactionLabels_eq (x y : List String) : interactionLabels x y = labelProd colon x y := rfl
 
 def reduceRows : List (List Entry) → List Entry
   | [] => []
   | r :: rs => rs.foldl rowProd r
 
 /-- n-ary: folding the labels and folding the data of one row keep labels and entries aligned -/
-theorem zip_foldl_products (sep : String) (comps : List (List String × List Entry))
+theorem zip_foldl_products (f : String → String → String) (comps : List (List String × List Entry))
     (accL : List String) (accR : List Entry) (hacc : accL.length = accR.length)
     (h : ∀ c ∈ comps, c.1.length = c.2.length) :
-    List.zip ((comps.map (·.1)).foldl (labelProd sep) accL) ((comps.map (·.2)).foldl rowProd accR)
-      = comps.foldl (fun acc c => interL sep acc (List.zip c.1 c.2)) (List.zip accL accR)
-    ∧ ((comps.map (·.1)).foldl (labelProd sep) accL).length
+    List.zip ((comps.map (·.1)).foldl (labelProd f) accL) ((comps.map (·.2)).foldl rowProd accR)
+      = comps.foldl (fun acc c => interL f acc (List.zip c.1 c.2)) (List.zip accL accR)
+    ∧ ((comps.map (·.1)).foldl (labelProd f) accL).length
       = ((comps.map (·.2)).foldl rowProd accR).length := by
   induction comps generalizing accL accR with
   | nil => simp [hacc]
   | cons c comps ih =>
     have hc := h c (by simp)
-    have hlen : (labelProd sep accL c.1).length = (rowProd accR c.2).length := by
+    have hlen : (labelProd f accL c.1).length = (rowProd accR c.2).length := by
       rw [length_labelProd, length_rowProd, hacc, hc]
-    have := ih (labelProd sep accL c.1) (rowProd accR c.2) hlen (fun c' hc' => h c' (by simp [hc']))
+    have := ih (labelProd f accL c.1) (rowProd accR c.2) hlen (fun c' hc' => h c' (by simp [hc']))
     simp only [List.map_cons, List.foldl_cons]
-    rw [← zip_labelProd_rowProd sep accL c.1 accR c.2 hacc hc]
+    rw [← zip_labelProd_rowProd f accL c.1 accR c.2 hacc hc]
     exact this
 
 /-- row `r` of the interaction matrix is the product of the rows `r` -/
